@@ -11,8 +11,10 @@
 (* Reliable, ordered delivery of DATA per direction is what SctpAssoc.tla    *)
 (* establishes; here it is a FIFO per direction, and "all data of a stream   *)
 (* acknowledged" = no item of that stream left in the FIFO.  RE-CONFIG       *)
-(* chunks travel outside that order (a bag); they are lost only when         *)
-(* "LossyReconfig" is in Dev (known finding K02).                            *)
+(* chunks travel outside that order (a bag); up to MaxLoss of them are lost,  *)
+(* and a request whose exchange has no datagram in flight any more is sent    *)
+(* again by the requester's timer (RetxReconfig; absent from the code until   *)
+(* the repair of K02: deviation "NoReconfigRetx").                            *)
 (*                                                                           *)
 (* Objects are numbered 1..MaxObj in creation order.  A creates with odd     *)
 (* ids, B with even ids.  The clauses checked are those of C13 (and the      *)
@@ -25,9 +27,11 @@ CONSTANTS MaxObj,      \* channel objects that may ever exist
           MaxApiCreate,\* RTCDataChannel() calls by the application
           MaxSend,     \* user messages
           AllowReuse,  \* may the application create channels after a close() (id reuse)?
+          MaxLoss,     \* RE-CONFIG datagrams the network may lose
           Dev          \* subset of DevNames
 
-DevNames == {"LossyReconfig",          \* K02: a RE-CONFIG datagram may be lost
+DevNames == {"NoReconfigRetx",         \* K02 (repaired): a lost RE-CONFIG request / response is never sent again
+             "DupRequestReprocessed",  \* a retransmitted request resets the streams a second time
              "AckReopens",             \* fixed e27f12d: ACK sets `open` unconditionally
              "ResetBeforeAck",         \* fixed 27baa27: reset sent while stream data is outstanding
              "CloseNoIdQueuesReset",   \* fixed b45d83a: close() before id assignment queues a reset of "no id"
@@ -48,13 +52,14 @@ VARIABLES
   req,      \* e -> set of stream ids in the outstanding reset request (_reconfig_request), {} if none
   bag,      \* RE-CONFIG chunks in flight: set of [to, kind, ids, n]
   nreq,     \* e -> reset request sequence number
+  rdone,    \* e -> number of the peer's last request handled here (0: none) (_reconfig_response_seq)
   closed,   \* objects on which close() was called
   bad,      \* first violated clause observed inside an action ("" if none)
   nsend, ncreate, nlost,
   act       \* the action that led here, with its parameters (history; hidden by View; used by the lock-step replay)
 
-vars == <<obj, est, reg, dcq, fifo, rq, req, bag, nreq, closed, bad, nsend, ncreate, nlost, act>>
-View == <<obj, est, reg, dcq, fifo, rq, req, bag, nreq, closed, bad, nsend, ncreate, nlost>>
+vars == <<obj, est, reg, dcq, fifo, rq, req, bag, nreq, rdone, closed, bad, nsend, ncreate, nlost, act>>
+View == <<obj, est, reg, dcq, fifo, rq, req, bag, nreq, rdone, closed, bad, nsend, ncreate, nlost>>
 
 NoObj == [used |-> FALSE, owner |-> "A", id |-> NoId, rs |-> 0, remote |-> FALSE, pair |-> 0, nopen |-> 0, nclose |-> 0]
 FreeObjs == {o \in Objs : ~obj[o].used}
@@ -72,7 +77,7 @@ Init ==
   /\ reg = [e \in E |-> <<>>]
   /\ dcq = [e \in E |-> <<>>] /\ fifo = [e \in E |-> <<>>]
   /\ rq = [e \in E |-> <<>>] /\ req = [e \in E |-> {}]
-  /\ bag = {} /\ nreq = [e \in E |-> 0]
+  /\ bag = {} /\ nreq = [e \in E |-> 0] /\ rdone = [e \in E |-> 0]
   /\ closed = {} /\ bad = "" /\ nsend = 0 /\ ncreate = 0 /\ nlost = 0
   /\ act = [op |-> "init"]
 
@@ -155,7 +160,7 @@ Establish(e) ==
                                         !.fifo[e] = Append(@, [sid |-> i, kind |-> it.kind, o |-> o])])
        IN Commit(F(st))
   /\ act' = [op |-> "establish", e |-> e]
-  /\ UNCHANGED <<closed, bad, nsend, ncreate, nlost>>
+  /\ UNCHANGED <<rdone, closed, bad, nsend, ncreate, nlost>>
 
 Create(e) ==
   /\ est[e] # "down" /\ ncreate < MaxApiCreate /\ FreeObjs # {}
@@ -165,21 +170,21 @@ Create(e) ==
      IN Commit(st0)      \* the flush runs as a separate task (FlushTask)
   /\ ncreate' = ncreate + 1
   /\ act' = [op |-> "create", e |-> e, o |-> NewObj]
-  /\ UNCHANGED <<est, closed, bad, nsend, nlost>>
+  /\ UNCHANGED <<est, rdone, closed, bad, nsend, nlost>>
 
 Send(e, o) ==
   /\ obj[o].used /\ obj[o].owner = e /\ obj[o].rs = 1 /\ nsend < MaxSend
   /\ Commit([St EXCEPT !.dcq[e] = Append(@, [o |-> o, kind |-> "MSG"])])
   /\ nsend' = nsend + 1
   /\ act' = [op |-> "send", e |-> e, o |-> o]
-  /\ UNCHANGED <<est, closed, bad, ncreate, nlost>>
+  /\ UNCHANGED <<est, rdone, closed, bad, ncreate, nlost>>
 
 \* the _data_channel_flush task scheduled by _data_channel_open / _data_channel_send
 FlushTask(e) ==
   /\ est[e] = "up" /\ dcq[e] # <<>>
   /\ Commit(TxReconfig(Flush(St, e), e))
   /\ act' = [op |-> "flush", e |-> e]
-  /\ UNCHANGED <<est, closed, bad, nsend, ncreate, nlost>>
+  /\ UNCHANGED <<est, rdone, closed, bad, nsend, ncreate, nlost>>
 
 \* Without AllowReuse the application closes only when no other channel is still waiting
 \* for its id (ids are allocated at flush time), so that no id is ever used twice.
@@ -193,7 +198,7 @@ Close(e, o) ==
   /\ Commit(CloseCh(St, e, o))
   /\ closed' = closed \cup {o}
   /\ act' = [op |-> "close", e |-> e, o |-> o]
-  /\ UNCHANGED <<est, bad, nsend, ncreate, nlost>>
+  /\ UNCHANGED <<est, rdone, bad, nsend, ncreate, nlost>>
 
 \* one DATA chunk of the peer is delivered (and thereby acknowledged: the SACK goes straight
 \* back; _receive_sack_chunk at the sender ends with _data_channel_flush and _transmit_reconfig)
@@ -227,7 +232,7 @@ DeliverData(e) ==
                /\ bad' = (IF bad = "" /\ known /\ obj[reg[e][it.sid]].pair # it.o /\ obj[it.o].pair # reg[e][it.sid]
                             THEN "message_on_wrong_channel" ELSE bad)
   /\ act' = [op |-> "data", e |-> e, sid |-> Head(fifo[p]).sid, kind |-> Head(fifo[p]).kind]
-  /\ UNCHANGED <<est, closed, nsend, ncreate, nlost>>
+  /\ UNCHANGED <<est, rdone, closed, nsend, ncreate, nlost>>
 
 DeliverReconfig(m) ==
   LET e == m.to IN
@@ -239,8 +244,10 @@ DeliverReconfig(m) ==
                   IF ids = {} THEN s
                   ELSE LET i == CHOOSE x \in ids : TRUE
                        IN CloseAll(IF i \in DOMAIN s.reg[e] THEN CloseCh(s, e, s.reg[e][i]) ELSE s, ids \ {i})
-                st1 == CloseAll(st0, m.ids)
+                \* a retransmitted request is only answered again
+                st1 == IF m.n = rdone[e] /\ "DupRequestReprocessed" \notin Dev THEN st0 ELSE CloseAll(st0, m.ids)
             IN /\ Commit([st1 EXCEPT !.bag = @ \cup {[to |-> Peer(e), kind |-> "RESP", ids |-> m.ids, n |-> m.n]}])
+               /\ rdone' = [rdone EXCEPT ![e] = m.n]
                /\ UNCHANGED bad
        ELSE IF req[e] # {} /\ m.n = nreq[e]
               THEN LET RECURSIVE Fin(_, _)
@@ -250,15 +257,27 @@ DeliverReconfig(m) ==
                    IN /\ Commit(TxReconfig([st1 EXCEPT !.req[e] = {}], e))
                       /\ bad' = (IF bad = "" /\ \E i \in req[e] : i \notin DOMAIN reg[e]
                                    THEN "reset_of_unregistered_stream" ELSE bad)
-              ELSE Commit(st0) /\ UNCHANGED bad
+                      /\ UNCHANGED rdone
+              ELSE Commit(st0) /\ UNCHANGED <<bad, rdone>>
   /\ act' = [op |-> "reconfig", e |-> e, kind |-> m.kind, ids |-> m.ids, n |-> m.n]
   /\ UNCHANGED <<est, closed, nsend, ncreate, nlost>>
 
 LoseReconfig(m) ==
-  /\ "LossyReconfig" \in Dev /\ m \in bag /\ nlost < 1
+  /\ m \in bag /\ nlost < MaxLoss
   /\ bag' = bag \ {m} /\ nlost' = nlost + 1
   /\ act' = [op |-> "lose", e |-> m.to, kind |-> m.kind, ids |-> m.ids, n |-> m.n]
-  /\ UNCHANGED <<obj, est, reg, dcq, fifo, rq, req, nreq, closed, bad, nsend, ncreate>>
+  /\ UNCHANGED <<obj, est, reg, dcq, fifo, rq, req, nreq, rdone, closed, bad, nsend, ncreate>>
+
+\* _reconfig_timer_expired: the pending request is sent again.  The model lets the timer
+\* fire only when no datagram of the exchange is in flight any more (a real time-out comes
+\* after the network has drained), so every retransmission answers a loss.
+InFlight(e) == \E m \in bag : m.n = nreq[e] /\ ((m.kind = "REQ" /\ m.to = Peer(e)) \/ (m.kind = "RESP" /\ m.to = e))
+RetxEnabled(e) == est[e] = "up" /\ req[e] # {} /\ "NoReconfigRetx" \notin Dev /\ ~InFlight(e)
+RetxReconfig(e) ==
+  /\ RetxEnabled(e)
+  /\ bag' = bag \cup {[to |-> Peer(e), kind |-> "REQ", ids |-> req[e], n |-> nreq[e]]}
+  /\ act' = [op |-> "retx", e |-> e]
+  /\ UNCHANGED <<obj, est, reg, dcq, fifo, rq, req, nreq, rdone, closed, bad, nsend, ncreate, nlost>>
 
 \* _set_state(CLOSED): abort / shutdown / transport failure at e
 AssocEnd(e) ==
@@ -272,10 +291,10 @@ AssocEnd(e) ==
         /\ reg' = [reg EXCEPT ![e] = <<>>]
         /\ dcq' = [dcq EXCEPT ![e] = <<>>]
   /\ act' = [op |-> "end", e |-> e]
-  /\ UNCHANGED <<fifo, rq, req, bag, nreq, closed, bad, nsend, ncreate, nlost>>
+  /\ UNCHANGED <<fifo, rq, req, bag, nreq, rdone, closed, bad, nsend, ncreate, nlost>>
 
 Next ==
-  \/ \E e \in E : Establish(e) \/ Create(e) \/ FlushTask(e) \/ DeliverData(e) \/ AssocEnd(e)
+  \/ \E e \in E : Establish(e) \/ Create(e) \/ FlushTask(e) \/ DeliverData(e) \/ AssocEnd(e) \/ RetxReconfig(e)
   \/ \E e \in E, o \in Objs : Send(e, o) \/ Close(e, o)
   \/ \E m \in bag : DeliverReconfig(m) \/ LoseReconfig(m)
 
@@ -285,7 +304,7 @@ Spec == Init /\ [][Next]_vars
 SimNext == Next /\ (act'.op = "end" => (TLCGet("level") > 14 \/ RandomElement(1..8) = 1))
 SimSpec == Init /\ [][SimNext]_vars
 FairSpec == Spec /\ \A e \in E : WF_vars(Establish(e)) /\ WF_vars(DeliverData(e)) /\ WF_vars(FlushTask(e))
-                 /\ WF_vars(\E m \in bag : DeliverReconfig(m))
+                 /\ WF_vars(\E m \in bag : DeliverReconfig(m)) /\ WF_vars(RetxReconfig(e))
 
 -----------------------------------------------------------------------------
 (* C13 clauses                                                               *)
@@ -313,7 +332,7 @@ CloseCompletes ==
 \* safety core of the same clause: when everything is quiet every closed channel is closed at both ends
 Quiet == \A e \in E : fifo[e] = <<>> /\ dcq[e] = <<>>
 CloseCompleteWhenQuiet ==
-  (BothUp /\ Quiet /\ bag = {}) =>
+  (BothUp /\ Quiet /\ bag = {} /\ \A e \in E : ~RetxEnabled(e)) =>
      \A o \in closed : obj[o].rs = 3 /\ (obj[o].pair = 0 \/ obj[obj[o].pair].rs = 3)
 
 \* witnesses (must be violated)
